@@ -38,6 +38,7 @@ type interp struct {
 	stamp       int
 	observes    []observation
 	chanCaps    map[string]int
+	logGates    []string // substrings of structured log messages that are scheduling points
 	funcsSeen   map[*ssa.Function]int
 	stubsSeen   map[string]int
 	opaques     map[string]*opaque
